@@ -27,7 +27,7 @@ from pexpect.exceptions import EOF, TIMEOUT
 
 PROPERTY = 'C12'
 RULE = ('Hypothesis-generated child dialogues (1-7 steps: text, text arriving in two pieces cut inside a character, payload up to 200 KB, prompt+read, sleep) x event tables '
-        '(dict|list; string|function|method responses; callbacks returning None|string|True; EOF/TIMEOUT keys) x '
+        '(dict|list, a third of the lists with a later second entry for every pattern; string|function|method responses; callbacks returning None|string|True; EOF/TIMEOUT keys) x '
         'bytes|utf-8 x withexitstatus x searchwindowsize {unset, 4000} passed through **kwargs, on real children.  Non-trivial: >= 2 events fired, or a TIMEOUT event fired '
         'mid-stream, or more than maxread (2000) bytes of output between two events.  Distinct by hash of the case.')
 ASSUMPTIONS = [
@@ -95,7 +95,7 @@ def cases(draw):
         events['TIMEOUT'] = ['func', draw(st.sampled_from(['none', 'none', 'stop']))]
     order = draw(st.permutations(sorted(events)))
     return {'text_mode': text_mode, 'steps': steps, 'events': events, 'order': list(order),
-            'as_list': draw(st.booleans()), 'exit': draw(st.sampled_from([0, 0, 3, 77])),
+            'as_list': draw(st.booleans()), 'dup': draw(st.integers(0, 2)) == 0, 'exit': draw(st.sampled_from([0, 0, 3, 77])),
             'withexit': draw(st.booleans()), 'slow': slow, 'extra': draw(st.sampled_from([None, 'xa', 7])),
             'default_timeout': draw(st.integers(0, 3)) == 0,
             # passed through run(**kwargs): a search window larger than any read plus any prompt changes nothing
@@ -257,6 +257,12 @@ def check_case(case, col=None):
             r = Responder(log, what, name)
             val = _Method(r, rconv).call
         table.append((key, val))
+    if case.get('dup') and case['as_list']:
+        # a caller's own entries followed by appended defaults for the same patterns: in a list the first entry for
+        # a pattern is the one that answers
+        for key, _v in list(table):
+            if key is not EOF and key is not TIMEOUT:
+                table.append((key, rconv('WRONG-LATER-ENTRY\n')))
     events = table if case['as_list'] else dict(table)
     if not table:
         events = None
